@@ -11,7 +11,9 @@ import (
 // C05 wire (mirror of coq/theories/C05_Wire.v)
 //
 //	input    = cfg t (op arg)*
-//	           cfg 0 = queue.New[int]() (t ignored), cfg 1 = queue.NewLinked[int](t)
+//	           cfg = impl + 2*inst: impl 0 = queue.New[T]() (t ignored), impl 1 = queue.NewLinked[T](t);
+//	           inst 0: T = int, 1: T = string, 2: T = struct{K int; S string} (c05_instances.go:
+//	           elements go through an injective codec int <-> T, the model ignores inst)
 //	           op 1 Enqueue arg | 2 Dequeue | 3 Peek | 4 Search arg | 5 Size | 6 Clear
 //	observed = result of every op, then the end of the case:
 //	           Size (= n), min(n,4096) x Dequeue, Size, Dequeue, Size, Peek
@@ -44,6 +46,53 @@ type c05Linked struct{ *queue.LQueue[int] }
 
 func (q c05Linked) Deq() (int, bool) { return q.Dequeue(), false }
 
+// the same containers at another element type, behind the int codec
+type c05SliceG[T comparable] struct {
+	q   *queue.Queue[T]
+	enc func(int) T
+	dec func(T) int
+}
+
+func (a c05SliceG[T]) Enqueue(v int)     { a.q.Enqueue(a.enc(v)) }
+func (a c05SliceG[T]) Deq() (int, bool)  { v, err := a.q.Dequeue(); return a.dec(v), err != nil }
+func (a c05SliceG[T]) Peek() int         { return a.dec(a.q.Peek()) }
+func (a c05SliceG[T]) Search(v int) bool { return a.q.Search(a.enc(v)) }
+func (a c05SliceG[T]) Size() int         { return a.q.Size() }
+func (a c05SliceG[T]) Clear()            { a.q.Clear() }
+
+type c05LinkedG[T comparable] struct {
+	q   *queue.LQueue[T]
+	enc func(int) T
+	dec func(T) int
+}
+
+func (a c05LinkedG[T]) Enqueue(v int)     { a.q.Enqueue(a.enc(v)) }
+func (a c05LinkedG[T]) Deq() (int, bool)  { return a.dec(a.q.Dequeue()), false }
+func (a c05LinkedG[T]) Peek() int         { return a.dec(a.q.Peek()) }
+func (a c05LinkedG[T]) Search(v int) bool { return a.q.Search(a.enc(v)) }
+func (a c05LinkedG[T]) Size() int         { return a.q.Size() }
+func (a c05LinkedG[T]) Clear()            { a.q.Clear() }
+
+func c05New(cfg, t int) c05Queue {
+	impl, inst := cfg%2, cfg/2
+	switch inst {
+	case 1:
+		if impl == 0 {
+			return c05SliceG[string]{queue.New[string](), instEncString, instDecString}
+		}
+		return c05LinkedG[string]{queue.NewLinked[string](instEncString(t)), instEncString, instDecString}
+	case 2:
+		if impl == 0 {
+			return c05SliceG[instKS]{queue.New[instKS](), instEncKS, instDecKS}
+		}
+		return c05LinkedG[instKS]{queue.NewLinked[instKS](instEncKS(t)), instEncKS, instDecKS}
+	}
+	if impl == 0 {
+		return c05Slice{queue.New[int]()}
+	}
+	return c05Linked{queue.NewLinked[int](t)}
+}
+
 func c05Apply(q c05Queue, op, arg int, out *[]int64) {
 	switch op {
 	case c05Enqueue:
@@ -67,12 +116,10 @@ func execC05(in []int64) []int64 {
 	body := func() {
 		r := &R{w: in}
 		cfg, t := r.Int(), r.Int()
-		var q c05Queue
-		if cfg == 0 {
-			q = c05Slice{queue.New[int]()}
-		} else {
-			q = c05Linked{queue.NewLinked[int](t)}
+		if cfg < 0 || cfg > 5 {
+			cfg = ((cfg % 2) + 2) % 2 // the model answers wire_error; run something deterministic
 		}
+		q := c05New(cfg, t)
 		for len(r.w) >= 2 {
 			op, arg := r.Int(), r.Int()
 			c05Apply(q, op, arg, &out)
@@ -149,16 +196,17 @@ func c05Wire(cfg, t int, ops [][2]int) []int64 {
 
 func c05Emit(g *Gen, stream string, cfg, t int, ops [][2]int) {
 	size0 := 0
-	if cfg == 1 {
+	if cfg%2 == 1 {
 		size0 = 1
 	}
 	nt := c05Nontrivial(size0, ops)
 	g.Case(stream, nt, c05Wire(cfg, t, ops))
-	if cfg == 0 {
+	if cfg%2 == 0 {
 		g.Count("impl.slice")
 	} else {
 		g.Count("impl.linked")
 	}
+	g.Count("inst." + instName(cfg/2))
 	g.Count(largeLenBucket(len(ops)))
 	if nt {
 		g.Count("drain+refill")
@@ -189,6 +237,46 @@ func c05Emit(g *Gen, stream string, cfg, t int, ops [][2]int) {
 	if size == 0 {
 		g.Count("ends.empty")
 	}
+}
+
+// c05RandomHistory: length 400, phases that fill, drain (over-drain) and churn.
+func c05RandomHistory(g *Gen, val func() int) [][2]int {
+	var ops [][2]int
+	for len(ops) < 400 {
+		phase := g.Rng.Intn(4)
+		plen := 1 + g.Rng.Intn(24)
+		for i := 0; i < plen && len(ops) < 400; i++ {
+			x := g.Rng.Intn(100)
+			var o [2]int
+			switch {
+			case x < 12:
+				o = [2]int{c05Peek, 0}
+			case x < 24:
+				o = [2]int{c05Search, val()}
+			case x < 32:
+				o = [2]int{c05Size, 0}
+			case x < 34:
+				o = [2]int{c05Clear, 0}
+			default:
+				enq := false
+				switch phase {
+				case 0: // fill
+					enq = x < 85
+				case 1, 2: // drain, overshooting into the empty queue
+					enq = x < 42
+				default: // churn
+					enq = x < 67
+				}
+				if enq {
+					o = [2]int{c05Enqueue, val()}
+				} else {
+					o = [2]int{c05Dequeue, 0}
+				}
+			}
+			ops = append(ops, o)
+		}
+	}
+	return ops
 }
 
 func genC05(g *Gen) {
@@ -234,41 +322,7 @@ func genC05(g *Gen) {
 	}
 	nrand := g.Pick(400, 6000)
 	for c := 0; c < nrand; c++ {
-		var ops [][2]int
-		for len(ops) < 400 {
-			phase := g.Rng.Intn(4)
-			plen := 1 + g.Rng.Intn(24)
-			for i := 0; i < plen && len(ops) < 400; i++ {
-				x := g.Rng.Intn(100)
-				var o [2]int
-				switch {
-				case x < 12:
-					o = [2]int{c05Peek, 0}
-				case x < 24:
-					o = [2]int{c05Search, val()}
-				case x < 32:
-					o = [2]int{c05Size, 0}
-				case x < 34:
-					o = [2]int{c05Clear, 0}
-				default:
-					enq := false
-					switch phase {
-					case 0: // fill
-						enq = x < 85
-					case 1, 2: // drain, overshooting into the empty queue
-						enq = x < 42
-					default: // churn
-						enq = x < 67
-					}
-					if enq {
-						o = [2]int{c05Enqueue, val()}
-					} else {
-						o = [2]int{c05Dequeue, 0}
-					}
-				}
-				ops = append(ops, o)
-			}
-		}
+		ops := c05RandomHistory(g, val)
 		cfg := c % 2
 		t := val()
 		c05Emit(g, "random", cfg, t, ops)
@@ -303,11 +357,42 @@ func genC05(g *Gen) {
 		})
 	}
 
+	// 2c. instances: the same kinds of histories on Queue[T] / LQueue[T] for
+	// T = string and T = struct{K int; S string} (c05_instances.go): every
+	// sequence over the 10-op alphabet up to length 4 (thorough 5), random
+	// length-400 histories, and the long structured histories up to 130 elements
+	for _, inst := range instOther {
+		for impl := 0; impl <= 1; impl++ {
+			cfg := impl + 2*inst
+			seqsUpTo(len(c05Alpha), g.Pick(4, 5), func(seq []int) {
+				ops := make([][2]int, len(seq))
+				for i, v := range seq {
+					ops[i] = c05Alpha[v]
+				}
+				c05Emit(g, "instances", cfg, 1, ops)
+			})
+			for c := 0; c < g.Pick(150, 1500); c++ {
+				ops := c05RandomHistory(g, val)
+				c05Emit(g, "instances", cfg, val(), ops)
+			}
+			largePlans(g.Quick(), 130, func(name string, build func(b *largeBuilder)) {
+				var b *largeBuilder
+				if impl == 0 {
+					b = newLargeBuilder(true, c05LargeOps, nil, 1)
+				} else {
+					b = newLargeBuilder(true, c05LargeOps, []int{1}, 2)
+				}
+				build(b)
+				c05Emit(g, "instances", cfg, 1, b.ops)
+			})
+		}
+	}
+
 	// 3. "malformed" use: everything a caller should not do — long runs of
 	// reads and removals on an empty / emptied / cleared queue, extreme values,
 	// searching for the zero value
 	extremes := []int{0, -1, 1 << 40, -(1 << 40)}
-	for cfg := 0; cfg <= 1; cfg++ {
+	for cfg := 0; cfg <= 5; cfg++ {
 		for _, t := range extremes {
 			for k := 0; k <= 3; k++ { // k elements enqueued first
 				for _, killer := range []int{c05Dequeue, c05Clear} {
@@ -318,7 +403,7 @@ func genC05(g *Gen) {
 					if killer == c05Clear {
 						ops = append(ops, [2]int{c05Clear, 0})
 					} else {
-						for i := 0; i < k+cfg; i++ {
+						for i := 0; i < k+cfg%2; i++ {
 							ops = append(ops, [2]int{c05Dequeue, 0})
 						}
 					}
@@ -358,10 +443,14 @@ func describeC05(in []int64) string {
 		return "malformed"
 	}
 	var sb strings.Builder
-	if in[0] == 0 {
-		sb.WriteString("queue.New[int]()")
+	impl, inst := int(in[0])%2, int(in[0])/2
+	if impl == 0 {
+		fmt.Fprintf(&sb, "queue.New[%s]()", instName(inst))
 	} else {
-		fmt.Fprintf(&sb, "queue.NewLinked(%d)", in[1])
+		fmt.Fprintf(&sb, "queue.NewLinked[%s](%d)", instName(inst), in[1])
+	}
+	if inst != 0 {
+		sb.WriteString(" [elements through the int codec of c05_instances.go]")
 	}
 	rest := in[2:]
 	for i := 0; i+1 < len(rest) && i < 80; i += 2 {
@@ -382,6 +471,7 @@ func init() {
 			"for queue.New and for queue.NewLinked(1), result of every op observed, then Size + drain + Dequeue/Size/Peek on the emptied queue; " +
 			"exhaustive-deep: every sequence of length 6 and 7 (thorough: 7 and 8) over {Enqueue 1|2, Dequeue, Peek, Clear}; " +
 			"random: length-400 histories in fill / over-drain / churn phases over values 0..5; " +
+			"instances: for T = string and T = struct{K int; S string} (elements through an injective int codec whose strings are built afresh at run time for every use, zero value = 0) and both implementations: every sequence up to length 4 (thorough 5) over the same alphabet, 150 (1500) random length-400 histories each, long structured histories up to 130 elements, and the malformed stream; " +
 			"large: structured long histories over distinct increasing values for both implementations, Peek/Size/Search observed at several points and a full drain at the end: " +
 			"bulk grow to N in {40,130,300,1030} (thorough also 2050 and, slice queue only, 4000) then remove 3N/4+2, N or N+3; saw-tooth p+1 -> p/4-1 over the powers of two p up to 1024 (thorough 4096; linked queue 2048) with thrashing across each capacity boundary; " +
 			"sliding windows holding 1..4 elements while 130, 300, 1100 (5000) elements pass through; malformed: reads and removals on empty, emptied and cleared queues with extreme values. " +
